@@ -141,6 +141,8 @@ class SymK(KBase):
         self.fields: dict = {}
         self._n = 0
         self.path = ""
+        self.arrays0: dict = {}
+        self._keep: list = []
 
     def ext(self, name, lo=1):
         n = Sym.I(name)
@@ -173,6 +175,34 @@ class SymK(KBase):
         self.fields[name] = v
         return v
 
+    def array(self, name, shape, init=None, kind="real"):
+        """small concrete-shape array of symbolic values (Lagrangian / body-side data): a numpy
+        object array whose elements are fresh symbols `name[i,j,..]` (or init(idx)); real numpy does
+        shape, broadcasting and indexing work.  The code under contract mutates it in place."""
+        shape = tuple(int(s) for s in shape)
+        arr = np.empty(shape, dtype=object)
+        for idx in np.ndindex(*shape):
+            if init is not None:
+                arr[idx] = S(init(idx))
+            else:
+                arr[idx] = Sym.atom(mk_atom("cell", (name, tuple(Sym.const(i).key() for i in idx)), "int" if kind == "int" else "real"))
+        self.arrays0[id(arr)] = arr.copy()
+        self._keep.append(arr)
+        return arr
+
+    def aval(self, arr, idx):
+        return S(arr[tuple(idx)])
+
+    def aold(self, arr, idx):
+        return S(self.arrays0[id(arr)][tuple(idx)])
+
+    def array_unchanged(self, clause, arr, props=None):
+        old = self.arrays0[id(arr)]
+        same = all(S(arr[i]).same(S(old[i])) for i in np.ndindex(*arr.shape))
+        self.obligations.append(Obligation(self._name(clause), props or self.props, BoolSym.const(bool(same)),
+                                           ctx.facts(), kind="frame-log" if same else "ensures",
+                                           note="object array identical element by element"))
+
     def cell(self, shape, name="c", margin=0):
         """Skolem cell: fresh integers with margin <= c_a < n_a - margin."""
         self._n += 1
@@ -186,6 +216,18 @@ class SymK(KBase):
 
     def requires(self, cond):
         ctx.assume(as_bool(cond))
+
+    def havoc(self, arr):
+        """arbitrary prior content from here on: models 'whatever the buffer held before this call'
+        (scratch / work buffers must not carry information into a call)."""
+        buf = arr.buf
+        self._havocs = getattr(self, "_havocs", 0) + 1
+        fam = f"{buf.name}!havoc{self._havocs}"
+
+        def rhs(idx, fam=fam):
+            return Sym.atom(mk_atom("cell", (fam, tuple(i.key() for i in idx)), "real"))
+
+        buf.write([(Sym.const(0), e) for e in buf.extents], rhs, "havoc")
 
     def case(self, guard):
         """`for _ in K.case(g): ...` -- run the body once under the extra assumption g (scoped);
